@@ -14,6 +14,7 @@ import (
 	"verifharness/internal/core"
 	"verifharness/internal/fixture"
 	"verifharness/internal/refclient"
+	"verifharness/internal/transport"
 	rc "verifharness/internal/refcodec"
 )
 
@@ -719,6 +720,12 @@ func runLong(b core.Batch, em *core.Emitter) {
 				}
 				seen[idv] = true
 				byConn[cc.Connection] = append(byConn[cc.Connection], idv)
+				// an id must address a live user: an entry whose connection handler has already returned can never be
+				// removed any more (the removal is the handler's own deferred step)
+				if tc, ok := cc.Connection.(*transport.Conn); ok && tc.HandlerDone() {
+					fail("C13/long/id-of-a-departed-user", fmt.Sprintf("%s after %d connections: id %d is still registered (and listed) although its connection has ended and its handler has returned", label, total.Load(), idv))
+					return
+				}
 			}
 			for k, cl := range long {
 				got := byConn[any(cl.Conn)]
@@ -737,7 +744,12 @@ func runLong(b core.Batch, em *core.Emitter) {
 				text := fmt.Sprintf("ping-%s-%d", label, k)
 				if _, ok := from.Call(108, rc.F(103, rc.U16(int(ids[k]))), rc.F(113, rc.U16(1)), rc.FS(101, text)); !ok {
 					if strings.HasPrefix(from.LastWhy, "watchdog") {
-						// a wall-clock limit of the harness fired (loaded machine): no verdict
+						// a wall-clock limit of the harness fired. Slow (loaded machine) = no verdict; wedged = the request is
+						// still outstanding and the server raises no event at all for another 20 s
+						if srv.NoProgressFor(20 * time.Second) {
+							fail("C13/long/server-wedged", fmt.Sprintf("%s after %d connections: a long-lived client's request is outstanding and the server has made no progress at all for 20 s (%s); goroutines inside the server:\n%s", label, total.Load(), from.LastWhy, fixture.Stacks()))
+							return
+						}
 						unsure(fmt.Sprintf("%s: %s", label, from.LastWhy))
 						return
 					}
@@ -785,6 +797,9 @@ func runLong(b core.Batch, em *core.Emitter) {
 							return
 						}
 						cl := refclient.Connect(srv, fmt.Sprintf("10.%d.%d.%d:7", 14+seq/65536, (seq/256)%256, seq%256))
+						if failed.Load() > 24 {
+							return // something is wrong: the batch is judged below
+						}
 						if cl.Handshake() != nil {
 							failed.Add(1)
 							continue
@@ -799,6 +814,18 @@ func runLong(b core.Batch, em *core.Emitter) {
 			}
 			wg.Wait()
 			obs["transient_login_failures"] += int(failed.Load())
+			if failed.Load() > 24 && !violated {
+				// many logins in a row got no answer within the watchdog: slow, or wedged?
+				long[0].Send(500)
+				if srv.NoProgressFor(20 * time.Second) {
+					fail("C13/long/server-wedged", fmt.Sprintf("after %d connections: %d logins in a row were not answered, a keep-alive of a long-lived client is outstanding and the server has made no progress at all for 20 s; goroutines inside the server:\n%s", total.Load(), failed.Load(), fixture.Stacks()))
+				} else {
+					unsure(fmt.Sprintf("after %d connections: %d logins were not answered within the watchdog, but the server is making progress", total.Load(), failed.Load()))
+				}
+			}
+			if violated {
+				break
+			}
 			checkpoint(fmt.Sprintf("after-%d", done+n))
 		}
 		obs["connections"] = int(total.Load()) + K
